@@ -388,4 +388,96 @@ def predictClose (r : CRes) : Option Leak :=
     | .none => startUp
   (runC init sched).map leakOf
 
+
+/-! ### the OCR2 counterpart: internal/util/recoverable.go `RecoverableService` (wraps the polling observer's head loop)
+
+    Start(): `mu.Lock`; `if running return`; `go serviceStart()`; `run()`; `running = true`; unlock
+    Stop():  `mu.Lock`; `if !running return`; `service.Stop()`; `close(stopCh)`; `running = false`; unlock
+    serviceStart (the watcher W): `for { select { case err := <-stopped: if errors.Is(err, errServiceStopped) { <-time.After(coolDown); run() }
+                                                    case <-stopCh: return } }`
+    run(): `go func() { defer recover → stopped <- errServiceStopped;  err := service.Do();  stopped <- err }()`
+
+Start and Stop run under one mutex and nothing else reads `running`, so each is ONE step.  `stopped` has capacity 1 and
+the watcher is its only receiver (same hand-off rule as above).  The wrapped `Do` returns once the service was stopped
+(`gReturn…` needs `svcStopped`), or panics at any time.  A second Start after a Stop is outside the model (the polling
+observer guards Start/Close with `sync.Once`). -/
+namespace V2
+
+inductive WPc | absent | sel | parked | cool | rerun | done
+deriving DecidableEq, Repr
+
+structure VCore where
+  running    : Bool
+  stopClosed : Bool          -- `stopCh` closed
+  svcStopped : Bool          -- `service.Stop()` was called: `Do` returns
+  buf        : Option Msg    -- `stopped` (capacity 1); messages: nil / svcErr / stopped
+  wpc        : WPc
+  nCall : Nat                -- goroutines of `run()` about to call `Do`
+  nDo : Nat                  -- inside `Do`
+  nSendNil : Nat
+  nSendErr : Nat
+  nSendStopped : Nat
+  panicked : Bool            -- ghost
+deriving DecidableEq, Repr
+
+inductive VLabel
+  | start | stop | wSel | wStopSeen | coolElapsed | wRerun
+  | gEnter | gReturnNil | gReturnErr | gPanic | gSendNil | gSendErr | gSendStopped
+deriving DecidableEq, Repr
+
+def allVLabels : List VLabel :=
+  [.start, .stop, .wSel, .wStopSeen, .coolElapsed, .wRerun, .gEnter, .gReturnNil, .gReturnErr, .gPanic, .gSendNil, .gSendErr, .gSendStopped]
+
+/-- the watcher after receiving `m`: only errServiceStopped leads to a restart -/
+def afterRecvW : Msg → WPc
+  | .stopped => .cool
+  | _ => .sel
+
+def vsend (c : VCore) (m : Msg) : Option VCore :=
+  if c.wpc = .parked then some { c with wpc := afterRecvW m }
+  else if c.buf = none then some { c with buf := some m }
+  else none
+
+def vstep (c : VCore) : VLabel → Option VCore
+  | .start =>
+    if c.running then some c                                   -- `if m.running { return }`
+    else if c.wpc = .absent then some { c with running := true, wpc := .sel, nCall := c.nCall + 1 }
+    else none                                                  -- restart after Stop: outside the model
+  | .stop =>
+    if c.running then some { c with running := false, stopClosed := true, svcStopped := true }
+    else some c                                                -- `if !m.running { return }`
+  | .wSel =>
+    if c.wpc = .sel then
+      match c.buf with
+      | some m => some { c with buf := none, wpc := afterRecvW m }
+      | none => some { c with wpc := .parked }
+    else none
+  | .wStopSeen => if c.stopClosed ∧ (c.wpc = .sel ∨ c.wpc = .parked) then some { c with wpc := .done } else none
+  | .coolElapsed => if c.wpc = .cool then some { c with wpc := .rerun } else none
+  | .wRerun => if c.wpc = .rerun then some { c with wpc := .sel, nCall := c.nCall + 1 } else none
+  | .gEnter => if c.nCall = 0 then none else some { c with nCall := c.nCall - 1, nDo := c.nDo + 1 }
+  | .gReturnNil => if c.nDo = 0 ∨ c.svcStopped = false then none else some { c with nDo := c.nDo - 1, nSendNil := c.nSendNil + 1 }
+  | .gReturnErr => if c.nDo = 0 ∨ c.svcStopped = false then none else some { c with nDo := c.nDo - 1, nSendErr := c.nSendErr + 1 }
+  | .gPanic => if c.nDo = 0 then none else some { c with nDo := c.nDo - 1, nSendStopped := c.nSendStopped + 1, panicked := true }
+  | .gSendNil => if c.nSendNil = 0 then none else (vsend c .nil).map fun c' => { c' with nSendNil := c.nSendNil - 1 }
+  | .gSendErr => if c.nSendErr = 0 then none else (vsend c .svcErr).map fun c' => { c' with nSendErr := c.nSendErr - 1 }
+  | .gSendStopped => if c.nSendStopped = 0 then none else (vsend c .stopped).map fun c' => { c' with nSendStopped := c.nSendStopped - 1 }
+
+def vrun : VCore → List VLabel → Option VCore
+  | c, [] => some c
+  | c, l :: ls => match vstep c l with
+    | some c' => vrun c' ls
+    | none => none
+
+def vinit : VCore :=
+  { running := false, stopClosed := false, svcStopped := false, buf := none, wpc := .absent,
+    nCall := 0, nDo := 0, nSendNil := 0, nSendErr := 0, nSendStopped := 0, panicked := false }
+
+def VCore.gs (c : VCore) : Nat := c.nCall + c.nDo + c.nSendNil + c.nSendErr + c.nSendStopped
+
+/-- nothing of the service is left: the watcher returned, no `run()` goroutine, flag cleared -/
+def VCore.clean (c : VCore) : Bool := decide (c.wpc = .done) && !c.running && decide (c.gs = 0)
+
+end V2
+
 end AutoVerif.C18
